@@ -46,7 +46,9 @@ __isoc23_strtol __isoc23_strtoll __isoc23_strtoull __isoc23_sscanf""".split())
 
 
 def variant_flags(variant):
-    common = ["-std=c++17", "-g", "-fno-omit-frame-pointer", "-DUSE_PPOLL=1", "-Wno-deprecated"]
+    # -DNDEBUG as in the shipped (CMake RelWithDebInfo/Release) configuration: an
+    # internal assert is not user-visible behaviour; the sanitizers see real errors.
+    common = ["-std=c++17", "-g", "-fno-omit-frame-pointer", "-DUSE_PPOLL=1", "-DNDEBUG", "-Wno-deprecated"]
     if variant == "san":
         return common + ["-O1", "-fsanitize=address,undefined", "-fno-sanitize-recover=undefined"], \
                ["-fsanitize=address,undefined"]
